@@ -40,6 +40,21 @@ class BaseProfile(object):
         return {k: cfg[k] for k in sorted(cfg) if d.get(k, None) != cfg[k]}
 
 
+def normalise_close_order(toks):
+    """loseConnection() followed by a write on the same connection in the same callback puts the same
+    bytes on the wire as the other order (Twisted flushes before it closes): normalise to write-then-close."""
+    out = []
+    for i, t in enumerate(toks):
+        if t[0] == "lose" and any(u[0] == "tx" and u[1] == t[1] for u in toks[i + 1:]):
+            continue
+        out.append(t)
+        if t[0] == "tx":
+            later_tx = any(u[0] == "tx" and u[1] == t[1] for u in toks[i + 1:])
+            if not later_tx and any(u[0] == "lose" and u[1] == t[1] for u in toks[:i]) and ("lose", t[1]) not in out:
+                out.append(("lose", t[1]))
+    return out
+
+
 class BaseCtx(object):
     prop = None
 
@@ -113,6 +128,8 @@ class BaseCtx(object):
                 escapes.append(e[2:])
             elif kind == "write_dropped":
                 self.stats["write_to_closed_transport"] += 1
+        n = len(toks)
+        toks = normalise_close_order(toks)
         return toks, escapes, handler
 
     @staticmethod
